@@ -1,7 +1,356 @@
-import RbdlProofs.Lemmas.Rot
-/- C02 — property theorems (being filled in) -/
+import RbdlProofs.Lemmas.AbaWF
+import RbdlProofs.Lemmas.AbaTree
+import RbdlProofs.Lemmas.AbaChain
+import RbdlProofs.Lemmas.AbaCMT
+import RbdlProofs.Lemmas.AbaEx
+/-
+  C02 — the articulated-body algorithm inverts inverse dynamics.
+
+  For every model, state, `tau` and external forces the accelerations returned by `forwardDynamics`
+  make `inverseDynamics` reproduce `tau` exactly (over any field), provided the joint-space pivots
+  are invertible.
+
+  * Part 1 (local algebra (A1)–(A3)): `RbdlProofs/Lemmas/Aba.lean`.
+  * (T1) pure recursions on an abstract tree: `RbdlProofs/Lemmas/AbaTree.lean`, restated here.
+  * (T2) the code-shaped loops: `aba_inverts_rnea` below (proof in `AbaLoops`, `AbaLocal`,
+    `AbaPhase1`, `AbaPhase23`, `AbaMain`, `AbaWF`, `AbaChain`).
+  * (T3) `calcMInvTimesTau`: `cmt_inverts_rnea` below (proof in `AbaCMT`).
+
+  Hypotheses of (T2) and why they are there:
+  * `m.WF`         — parents precede children, coordinates of the joints are disjoint and cover
+                     `[0, dofCount)` (established by `AddBody`, C14);
+  * `har`          — every joint is a 1-DoF or 3-DoF joint (custom joints are not covered);
+  * `hvirt`        — virtual bodies carry the zero inertia: `inverseDynamics` skips the body force of
+                     a virtual body, `forwardDynamics` does not;
+  * `hag`          — `jcalc` leaves the same `X_lambda`, `S`, `multdof3_S`, `v_J`, `c_J` of body `i` in
+                     the two workspaces (these are only partly written by `jcalc`, e.g. `S[i]` of the
+                     fixed-axis joints is never written); trivially true for `w2 = w`;
+  * `hx0`          — with external forces `inverseDynamics` multiplies by `X_base[0]`;
+  * `hpiv`         — `d_i ≠ 0` (1 DoF), `det (Sᵀ IA S) ≠ 0` (3 DoF) in the workspace returned by
+                     `forwardDynamics`.
+  `hvirt` and `hx0` are necessary (machine-checked counterexamples below).
+
+  Not proved (full statements):
+  * (T2) for models with custom joints (`Arity.custom`, list-based `cS`/`cU`/`cDinv`):
+      the same conclusion with `har` weakened to `m.arity i ≠ .other` and `hpiv` extended by
+      "`lmInverse D` succeeds and is an inverse of `D = Sᵀ IA S`".
+  * (T3) in the form "`calcMInvTimesTau … true` returns the accelerations of `forwardDynamics` with
+      zero velocity, zero gravity and no external forces":
+        (calcMInvTimesTau m w st tau q0 true).2 k
+          = (forwardDynamics {m with gravity := 0} w' st zeroVec tau q0 none).2 k   for k < dofCount.
+      What is proved (`L02.split_jointSame`) is that the two backward loops of `calcMInvTimesTau`
+      leave the same `U, d, u` / `U, D⁻¹, u` as the single backward loop of `forwardDynamics` started
+      from the same workspace; missing is the comparison of the first loops, which needs
+      `m.updateOrder` to be a permutation of the bodies (`calcMInvTimesTau` runs `jcalc_X_lambda_S`
+      in update order), the agreement of `jcalc` and `jcalc_X_lambda_S` on `X_lambda`, `S`, and
+      workspace invariants making `v_J = c_J = 0` at zero velocity.
+-/
 namespace Rbdl.C02
-open Lean.Grind Rbdl
+open Lean.Grind Rbdl Rbdl.L02
+
+/-! ### Part 1: the local algebra (proofs in `Lemmas/Aba.lean`) -/
+section
+variable {α : Type} [Field α]
+
+/-- (A1) one-DoF joint: with `U = IA S`, `d = Sᵀ U ≠ 0`, `u = τ - Sᵀ pA`, `qdd = (u - Uᵀ a') / d`,
+    `a = a' + S qdd` the joint-space equation `Sᵀ (IA a + pA) = τ` holds (symmetric `IA`). -/
+theorem one_dof_tau (IA : SM α) (hs : IA.transpose = IA) (S pA a' : SV α) (τ : α)
+    (hd : S.dot (IA * S) ≠ 0) :
+    let U := IA * S
+    let d := S.dot U
+    let u := τ - S.dot pA
+    let qdd := (1 / d) * (u - U.dot a')
+    let a := a' + qdd * S
+    S.dot (IA * a + pA) = τ := by
+  intro U d u qdd a
+  exact L02.one_dof_tau IA hs S pA a' τ hd
+
+example : let IA := Ex.body1.toRBI.toMatrix
+    let S : SV Rat := sv6 0 0 1 0 0 0
+    let pA : SV Rat := ⟨⟨1, 0, 2⟩, ⟨0, 1, 0⟩⟩
+    let a' : SV Rat := ⟨⟨0, 1, 1⟩, ⟨2, 0, 1/2⟩⟩
+    S.dot (IA * (a' + ((1 / S.dot (IA * S)) * ((3/2 - S.dot pA) - (IA * S).dot a')) * S) + pA)
+      = 3/2 :=
+  one_dof_tau Ex.body1.toRBI.toMatrix (symSM_rbi _) _ _ _ _ (by decide +kernel)
+
+/-- (A1) the force of the body in terms of the parent acceleration `ax` (`a' = ax + c`):
+    `IA a + pA = Ia ax + pa` with `Ia = IA - U Uᵀ / d`, `pa = pA + Ia c + (u / d) U`
+    (an identity: it holds for every `d`, `u`), and `Ia` is symmetric. -/
+theorem one_dof_force (IA : SM α) (S pA c ax : SV α) (d u : α) :
+    let U := IA * S
+    let a' := ax + c
+    let a := a' + ((1 / d) * (u - U.dot a')) * S
+    let Ia := IA - SM.outer U ((1 / d) * U)
+    let pa := pA + Ia * c + (u / d) * U
+    IA * a + pA = Ia * ax + pa ∧ (IA.transpose = IA → Ia.transpose = Ia) := by
+  intro U a' a Ia pa
+  exact ⟨L02.one_dof_force IA S pA c ax d u, fun hs => L02.one_dof_Ia_sym IA hs U d⟩
+
+/-- `A A⁻¹ = 1 = A⁻¹ A` for the cofactor inverse `M3.inv` of the model -/
+theorem m3_inv (A : M3 α) (h : A.det ≠ 0) : A * M3.inv A = M3.one ∧ M3.inv A * A = M3.one :=
+  ⟨L02.m3_mul_inv A h, L02.m3_inv_mul A h⟩
+
+example : C16.Ex.Ic * M3.inv C16.Ex.Ic = M3.one ∧ M3.inv C16.Ex.Ic * C16.Ex.Ic = M3.one :=
+  m3_inv C16.Ex.Ic (by decide +kernel)
+
+/-- (A2) three-DoF joint: with `U = IA S`, `D = Sᵀ U`, `D Dinv = 1`, `u = τ₃ - Sᵀ pA`,
+    `qdd = Dinv (u - Uᵀ a')`, `a = a' + S qdd`: `Sᵀ (IA a + pA) = τ₃` (symmetric `IA`). -/
+theorem three_dof_tau (IA : SM α) (hs : IA.transpose = IA) (S3 : M63 α) (pA a' : SV α)
+    (τ3 : V3 α) (Dinv : M3 α) (hD : S3.tmul (M63.lmulSM IA S3) * Dinv = M3.one) :
+    let U3 := M63.lmulSM IA S3
+    let u3 := τ3 - S3.tmulSV pA
+    let qdd3 := Dinv * (u3 - U3.tmulSV a')
+    let a := a' + S3.mulV3 qdd3
+    S3.tmulSV (IA * a + pA) = τ3 := by
+  intro U3 u3 qdd3 a
+  exact L02.three_dof_tau IA hs S3 pA a' τ3 Dinv hD
+
+example : let IA := Ex.body2.toRBI.toMatrix
+    let S3 : M63 Rat := ⟨sv6 1 0 0 0 0 0, sv6 0 1 0 0 0 0, sv6 0 0 1 0 0 0⟩
+    let pA : SV Rat := ⟨⟨1, 0, 2⟩, ⟨0, 1, 0⟩⟩
+    let a' : SV Rat := ⟨⟨0, 1, 1⟩, ⟨2, 0, 1/2⟩⟩
+    let τ3 : V3 Rat := ⟨1, -1, 1/2⟩
+    let Dinv := M3.inv (S3.tmul (M63.lmulSM IA S3))
+    S3.tmulSV (IA * (a' + S3.mulV3 (Dinv * ((τ3 - S3.tmulSV pA)
+      - (M63.lmulSM IA S3).tmulSV a'))) + pA) = τ3 :=
+  three_dof_tau Ex.body2.toRBI.toMatrix (symSM_rbi _) _ _ _ _ _
+    (m3_inv _ (by decide +kernel)).1
+
+/-- (A2) `IA a + pA = Ia ax + pa` with the `Ia`, `pa` of `abaIa` / `abaUDu` for a 3-DoF joint
+    (an identity in `Dinv`, `u3`), and `Ia` is symmetric for symmetric `IA`, `Dinv`; the `Dinv` the
+    model computes is symmetric. -/
+theorem three_dof_force (IA : SM α) (S3 : M63 α) (pA c ax : SV α) (Dinv : M3 α) (u3 : V3 α) :
+    let U3 := M63.lmulSM IA S3
+    let a' := ax + c
+    let a := a' + S3.mulV3 (Dinv * (u3 - U3.tmulSV a'))
+    let Ia := IA - M63.mulT (U3.mulM3 Dinv) U3
+    let pa := pA + Ia * c + U3.mulV3 (Dinv * u3)
+    IA * a + pA = Ia * ax + pa
+      ∧ (IA.transpose = IA → Dinv.transpose = Dinv → Ia.transpose = Ia)
+      ∧ (IA.transpose = IA → (M3.inv (S3.tmul U3)).transpose = M3.inv (S3.tmul U3)) := by
+  intro U3 a' a Ia pa
+  exact ⟨L02.three_dof_force IA S3 pA c ax Dinv u3,
+    fun hs hD => L02.three_dof_Ia_sym IA hs U3 Dinv hD,
+    fun hs => L02.three_dof_Dinv_sym IA hs S3⟩
+
+end
+
+section
 variable {α : Type} [CommRing α]
-theorem placeholder_rot_one : (M3.one : M3 α).IsRot := M3.isRot_one
+
+/-- (A3) congruence with a spatial transform (no rotation hypothesis): `X.applyTranspose f = Xᵀ f`,
+    `Xᵀ (Ia (X a)) = (Xᵀ Ia X) a`, and `Xᵀ Ia X` is symmetric for symmetric `Ia`. -/
+theorem congruence (X : XT α) (Ia : SM α) (a f : SV α) :
+    X.applyTranspose f = X.toMatrixTranspose * f
+      ∧ X.toMatrixTranspose * (Ia * (X.toMatrix * a))
+          = (X.toMatrixTranspose * Ia * X.toMatrix) * a
+      ∧ X.applyTranspose (Ia * X.apply a) = (X.toMatrixTranspose * Ia * X.toMatrix) * a
+      ∧ (Ia.transpose = Ia →
+          (X.toMatrixTranspose * Ia * X.toMatrix).transpose
+            = X.toMatrixTranspose * Ia * X.toMatrix) :=
+  ⟨L02.applyTranspose_eq X f, L02.congr_mulVec X Ia a, L02.congr_apply X Ia a,
+   fun hs => L02.symSM_congr X hs⟩
+
+end
+
+section
+variable {α : Type} [Field α] [DecidableEq α]
+
+/-! ### (T2) the code-shaped loops -/
+
+/-- (T2), joint by joint, with the structural facts as explicit hypotheses (`L02.Hyp`): for every
+    body `i` and every coordinate `t` of its joint, `inverseDynamics` writes `tau` back. -/
+theorem aba_inverts_rnea_joint (m : ModelS α) (w w2 : WS α) (st : QS α) (qd tau q0 t0 : VecN α)
+    (fext : Option (Nat → SV α)) (H : Hyp m st qd fext w w2)
+    (hpiv : ∀ i, 1 ≤ i → i < m.nBodies →
+      pivotOk m (forwardDynamics m w st qd tau q0 fext).1 i) :
+    ∀ i, 1 ≤ i → i < m.nBodies → ∀ t, t < (m.joint i).dof →
+      (inverseDynamics m w2 st qd (forwardDynamics m w st qd tau q0 fext).2 t0 fext).2
+          ((m.joint i).qIndex + t) = tau ((m.joint i).qIndex + t) :=
+  L02.aba_inverts_rnea_joint m w w2 st qd tau q0 t0 fext H hpiv
+
+/-- **(T2)** `inverseDynamics` of the accelerations of `forwardDynamics` is `tau`, for arbitrary
+    workspaces `w`, `w2`, arbitrary initial contents `q0`, `t0` of the output vectors. -/
+theorem aba_inverts_rnea (m : ModelS α) (hwf : m.WF) (w w2 : WS α) (st : QS α)
+    (qd tau q0 t0 : VecN α) (fext : Option (Nat → SV α))
+    (har : ∀ i, 1 ≤ i → i < m.nBodies → m.arity i = .one ∨ m.arity i = .three)
+    (hvirt : ∀ i, 1 ≤ i → i < m.nBodies → (m.body i).isVirtual = true → m.rbi i = RBI.zero)
+    (hag : ∀ i, 1 ≤ i → i < m.nBodies → jd (jcalc m w2 i st qd) i = jd (jcalc m w i st qd) i)
+    (hx0 : fext = none ∨ w2.X_base 0 = XT.id)
+    (hpiv : ∀ i, 1 ≤ i → i < m.nBodies →
+      pivotOk m (forwardDynamics m w st qd tau q0 fext).1 i) :
+    ∀ k, k < m.dofCount →
+      (inverseDynamics m w2 st qd (forwardDynamics m w st qd tau q0 fext).2 t0 fext).2 k
+        = tau k := by
+  intro k hk
+  obtain ⟨i, t, hi1, hi2, ht, rfl⟩ := wf_cover m hwf k hk
+  exact L02.aba_inverts_rnea_joint m w w2 st qd tau q0 t0 fext
+    ⟨hwf.lam_lt, har, hag, hvirt, fun i j _ h2 h3 => wf_qidx m hwf i j h2 h3, hx0⟩ hpiv
+    i hi1 hi2 t ht
+
+example (t0 : VecN Rat) : ∀ k, k < Ex.M.dofCount →
+    (inverseDynamics Ex.M Ex.w2 Ex.st Ex.qd
+      (forwardDynamics Ex.M Ex.w Ex.st Ex.qd Ex.tau Ex.q0 (some Ex.fe)).2 t0 (some Ex.fe)).2 k
+      = Ex.tau k :=
+  aba_inverts_rnea Ex.M Ex.M_wf Ex.w Ex.w2 Ex.st Ex.qd Ex.tau Ex.q0 t0 (some Ex.fe)
+    Ex.M_ar Ex.M_virt Ex.M_agree (Or.inr Ex.w2_x0) Ex.M_piv
+
+/-- (T2) when both routines run on the same workspace (`hag` is then trivial). -/
+theorem aba_inverts_rnea_same_ws (m : ModelS α) (hwf : m.WF) (w : WS α) (st : QS α)
+    (qd tau q0 t0 : VecN α) (fext : Option (Nat → SV α))
+    (har : ∀ i, 1 ≤ i → i < m.nBodies → m.arity i = .one ∨ m.arity i = .three)
+    (hvirt : ∀ i, 1 ≤ i → i < m.nBodies → (m.body i).isVirtual = true → m.rbi i = RBI.zero)
+    (hx0 : fext = none ∨ w.X_base 0 = XT.id)
+    (hpiv : ∀ i, 1 ≤ i → i < m.nBodies →
+      pivotOk m (forwardDynamics m w st qd tau q0 fext).1 i) :
+    ∀ k, k < m.dofCount →
+      (inverseDynamics m w st qd (forwardDynamics m w st qd tau q0 fext).2 t0 fext).2 k
+        = tau k :=
+  aba_inverts_rnea m hwf w w st qd tau q0 t0 fext har hvirt (fun _ _ _ => rfl) hx0 hpiv
+
+example (t0 : VecN Rat) : ∀ k, k < Ex.M.dofCount →
+    (inverseDynamics Ex.M Ex.w Ex.st Ex.qd
+      (forwardDynamics Ex.M Ex.w Ex.st Ex.qd Ex.tau Ex.q0 (some Ex.fe)).2 t0 (some Ex.fe)).2 k
+      = Ex.tau k :=
+  aba_inverts_rnea_same_ws Ex.M Ex.M_wf Ex.w Ex.st Ex.qd Ex.tau Ex.q0 t0 (some Ex.fe)
+    Ex.M_ar Ex.M_virt (Or.inr rfl) Ex.M_piv
+
+/-- (T2) when the two workspaces agree on the entries `jcalc` reads (`X_lambda`, `S`, `multdof3_S`,
+    `v_J`, `c_J` of every body). -/
+theorem aba_inverts_rnea_fields (m : ModelS α) (hwf : m.WF) (w w2 : WS α) (st : QS α)
+    (qd tau q0 t0 : VecN α) (fext : Option (Nat → SV α))
+    (har : ∀ i, 1 ≤ i → i < m.nBodies → m.arity i = .one ∨ m.arity i = .three)
+    (hvirt : ∀ i, 1 ≤ i → i < m.nBodies → (m.body i).isVirtual = true → m.rbi i = RBI.zero)
+    (hag : ∀ i, 1 ≤ i → i < m.nBodies →
+      w2.X_lambda i = w.X_lambda i ∧ w2.S i = w.S i ∧ w2.S3 i = w.S3 i ∧ w2.v_J i = w.v_J i
+        ∧ w2.c_J i = w.c_J i)
+    (hx0 : fext = none ∨ w2.X_base 0 = XT.id)
+    (hpiv : ∀ i, 1 ≤ i → i < m.nBodies →
+      pivotOk m (forwardDynamics m w st qd tau q0 fext).1 i) :
+    ∀ k, k < m.dofCount →
+      (inverseDynamics m w2 st qd (forwardDynamics m w st qd tau q0 fext).2 t0 fext).2 k
+        = tau k := by
+  refine aba_inverts_rnea m hwf w w2 st qd tau q0 t0 fext har hvirt ?_ hx0 hpiv
+  intro i h1 h2
+  obtain ⟨e1, e2, e3, e4, e5⟩ := hag i h1 h2
+  apply jcalc_jd_congr
+  unfold jd
+  rw [e1, e2, e3, e4, e5]
+
+example (t0 : VecN Rat) : ∀ k, k < Ex.M.dofCount →
+    (inverseDynamics Ex.M Ex.w Ex.st Ex.qd
+      (forwardDynamics Ex.M Ex.w Ex.st Ex.qd Ex.tau Ex.q0 none).2 t0 none).2 k = Ex.tau k := by
+  refine aba_inverts_rnea_fields Ex.M Ex.M_wf Ex.w Ex.w Ex.st Ex.qd Ex.tau Ex.q0 t0 none
+    Ex.M_ar Ex.M_virt (fun _ _ _ => ⟨rfl, rfl, rfl, rfl, rfl⟩) (Or.inl rfl) ?_
+  intro i h1 h2
+  rw [Ex.M_n] at h2
+  obtain rfl | rfl | rfl : i = 1 ∨ i = 2 ∨ i = 3 := by omega
+  · exact pivotOk_one _ _ 1 (by decide +kernel) (by decide +kernel)
+  · exact pivotOk_three _ _ 2 (by decide +kernel) (by decide +kernel)
+  · exact pivotOk_one _ _ 3 (by decide +kernel) (by decide +kernel)
+
+/-- (T2) on the workspace of the model, as in the C++ library: `inverseDynamics` runs on the
+    workspace that `forwardDynamics` returned (`jcalc` is idempotent on the joint data, so no
+    agreement hypothesis is needed). -/
+theorem aba_inverts_rnea_model (m : ModelS α) (hwf : m.WF) (w : WS α) (st : QS α)
+    (qd tau q0 t0 : VecN α) (fext : Option (Nat → SV α))
+    (har : ∀ i, 1 ≤ i → i < m.nBodies → m.arity i = .one ∨ m.arity i = .three)
+    (hvirt : ∀ i, 1 ≤ i → i < m.nBodies → (m.body i).isVirtual = true → m.rbi i = RBI.zero)
+    (hx0 : fext = none ∨ w.X_base 0 = XT.id)
+    (hpiv : ∀ i, 1 ≤ i → i < m.nBodies →
+      pivotOk m (forwardDynamics m w st qd tau q0 fext).1 i) :
+    ∀ k, k < m.dofCount →
+      (inverseDynamics m (forwardDynamics m w st qd tau q0 fext).1 st qd
+        (forwardDynamics m w st qd tau q0 fext).2 t0 fext).2 k = tau k := by
+  refine aba_inverts_rnea m hwf w _ st qd tau q0 t0 fext har hvirt
+    (fun i h1 h2 => forwardDynamics_agree m w st qd tau q0 fext i h1 h2) ?_ hpiv
+  rcases hx0 with h | h
+  · exact Or.inl h
+  · exact Or.inr (by rw [(forwardDynamics_jd m w st qd tau q0 fext).2]; exact h)
+
+example (t0 : VecN Rat) : ∀ k, k < Ex.M.dofCount →
+    (inverseDynamics Ex.M (forwardDynamics Ex.M Ex.w Ex.st Ex.qd Ex.tau Ex.q0 (some Ex.fe)).1
+      Ex.st Ex.qd (forwardDynamics Ex.M Ex.w Ex.st Ex.qd Ex.tau Ex.q0 (some Ex.fe)).2 t0
+      (some Ex.fe)).2 k = Ex.tau k :=
+  aba_inverts_rnea_model Ex.M Ex.M_wf Ex.w Ex.st Ex.qd Ex.tau Ex.q0 t0 (some Ex.fe)
+    Ex.M_ar Ex.M_virt (Or.inr rfl) Ex.M_piv
+
+/-! The hypotheses `hvirt` and `hx0` cannot be dropped: -/
+
+/-- a virtual body with non-zero inertia: `inverseDynamics` ignores its body force -/
+example : (inverseDynamics Ex.Mvirt Ex.w Ex.st Ex.qd
+      (forwardDynamics Ex.Mvirt Ex.w Ex.st Ex.qd Ex.tau Ex.q0 none).2 Ex.t0 none).2 4
+    ≠ Ex.tau 4 := by decide +kernel
+
+/-- external forces and `X_base[0] ≠ 1` in the workspace of `inverseDynamics` -/
+example : (inverseDynamics Ex.M Ex.w2bad Ex.st Ex.qd
+      (forwardDynamics Ex.M Ex.w Ex.st Ex.qd Ex.tau Ex.q0 (some Ex.fe)).2 Ex.t0 (some Ex.fe)).2 1
+    ≠ Ex.tau 1 := by decide +kernel
+
+/-! ### (T3) `calcMInvTimesTau` -/
+
+/-- **(T3)** `H * calcMInvTimesTau(τ) = τ` in RNEA form.  With `r = calcMInvTimesTau … true`:
+    the accelerations in the returned workspace are those of `r.2` at zero velocity and zero
+    gravity (`a_0 = 0`, `a_i = X_i a_λ(i) + S_i qdd_i` with the `X_lambda`, `S` of that workspace),
+    and the backward pass of RNEA on the forces `f_i = I_i a_i` writes `tau`.  No hypothesis on the
+    workspace, on `updateOrder` or on the bodies is needed. -/
+theorem cmt_inverts_rnea (m : ModelS α) (hwf : m.WF) (w : WS α) (st : QS α)
+    (tau q0 t0 : VecN α)
+    (har : ∀ i, 1 ≤ i → i < m.nBodies → m.arity i = .one ∨ m.arity i = .three)
+    (hpiv : ∀ i, 1 ≤ i → i < m.nBodies →
+      pivotOk m (calcMInvTimesTau m w st tau q0 true).1 i) :
+    let r := calcMInvTimesTau m w st tau q0 true
+    (r.1.a 0 = SV.zero ∧ ∀ i, 1 ≤ i → i < m.nBodies →
+        r.1.a i = (r.1.X_lambda i).apply (r.1.a (m.lam i)) + r.1.Sqdd m i r.2) ∧
+    ∀ k, k < m.dofCount →
+      (rneaBackward m { r.1 with f := fun j => (m.rbi j).toMatrix * r.1.a j } t0).2 k
+        = tau k := by
+  intro r
+  have h := cmt_inverts_joint m w st tau q0 t0 hwf.lam_lt har
+    (fun i j _ h2 h3 => wf_qidx m hwf i j h2 h3) hpiv
+  refine ⟨h.1, ?_⟩
+  intro k hk
+  obtain ⟨i, t, hi1, hi2, ht, rfl⟩ := wf_cover m hwf k hk
+  exact h.2 i hi1 hi2 t ht
+
+set_option maxRecDepth 100000 in
+example (t0 : VecN Rat) :
+    let r := calcMInvTimesTau Ex.M Ex.w2 Ex.st Ex.tau Ex.q0 true
+    (r.1.a 0 = SV.zero ∧ ∀ i, 1 ≤ i → i < Ex.M.nBodies →
+        r.1.a i = (r.1.X_lambda i).apply (r.1.a (Ex.M.lam i)) + r.1.Sqdd Ex.M i r.2) ∧
+    ∀ k, k < Ex.M.dofCount →
+      (rneaBackward Ex.M { r.1 with f := fun j => (Ex.M.rbi j).toMatrix * r.1.a j } t0).2 k
+        = Ex.tau k := by
+  refine cmt_inverts_rnea Ex.M Ex.M_wf Ex.w2 Ex.st Ex.tau Ex.q0 t0 Ex.M_ar ?_
+  intro i h1 h2
+  rw [Ex.M_n] at h2
+  obtain rfl | rfl | rfl : i = 1 ∨ i = 2 ∨ i = 3 := by omega
+  · exact pivotOk_one _ _ 1 (by decide +kernel) (by decide +kernel)
+  · exact pivotOk_three _ _ 2 (by decide +kernel) (by decide +kernel)
+  · exact pivotOk_one _ _ 3 (by decide +kernel) (by decide +kernel)
+
+end
+
+/-! ### (T1) the pure recursions -/
+section
+variable {α : Type} [Field α]
+
+/-- **(T1)** on an abstract tree (`L02.ATree`: bodies `1 … n`, children have larger indices), with
+    `(IAfin_i, pAfin_i) = T.AB i`, the accelerations `T.accel` of the third loop and the
+    accumulated RNEA forces `T.frc` for these accelerations (all defined by recursion on the body
+    index): `f_i = IAfin_i a_i + pAfin_i` for every body. -/
+theorem tree_force (T : ATree α) (i : Nat) :
+    T.frc i = (T.AB i).1 * T.accel i + (T.AB i).2 := T.frc_eq i
+
+/-- **(T1), joint space**: `S_iᵀ f_i = τ_i`, i.e. RNEA reproduces the joint torques, for symmetric
+    body inertias and invertible pivots. -/
+theorem tree_tau (T : ATree α) (hsym : ∀ j, SymSM (T.I j)) (i : Nat) (h1 : 1 ≤ i)
+    (hl : T.lam i < i) (hp : T.pivot i (T.AB i).1) : T.jointEq i (T.frc i) :=
+  T.frc_jointEq hsym i h1 hl hp
+
+example : Ex.T.jointEq 1 (Ex.T.frc 1) ∧ Ex.T.jointEq 2 (Ex.T.frc 2) :=
+  ⟨tree_tau Ex.T Ex.T_sym 1 (by decide) (by decide) Ex.T_piv1,
+   tree_tau Ex.T Ex.T_sym 2 (by decide) (by decide) Ex.T_piv2⟩
+
+end
 end Rbdl.C02
